@@ -165,8 +165,8 @@ Definition ex_block : block :=
      [ IComment 2 [32; 99] [];
        IKV (KPlain (PL [107; 49] [])) 1 (VFlow 1 (FPlain (PL [118] [(1%nat, [119])]) []) 3 (Some [32; 116])) [2%nat];
        IKV (KSingle [113; 39; 107]) 0
-           (VFlow 1 (FDouble [DChr 97; DEsc 116; DChr 98; DHex 120 [52; 49]; DBrk 0 [32]; DChr 33]
-                             [([32], 0%nat, [32; 32], [DChr 99])]) 0 None) [];
+           (VFlow 1 (FDouble [DChr 97; DEsc 116; DChr 98; DHex 120 [52; 49]; DBrk [[9]] [32]; DChr 33]
+                             [([32], [[32; 9]], [32; 32], [DChr 99])]) 0 None) [];
        IKV (KPlain (PL [108; 105; 116] [])) 0
            (VBlock 1 false (HD Keep true true 0 None) [] 2 [32; 32; 120] [([], [121])]) [0%nat];
        IKV (KPlain (PL [102; 111] [])) 0
@@ -180,7 +180,7 @@ Proof. vm_compute. reflexivity. Qed.
 Example C07_example_result :
   options_to_items (print_block ex_block) =
   Ok [ ([107; 49], [118; 32; 119]);
-       ([113; 39; 107], [97; 9; 98; 65; 33; 32; 99]);
+       ([113; 39; 107], [97; 9; 98; 65; 10; 33; 10; 99]);
        ([108; 105; 116], [32; 32; 120; 10; 121; 10; 10]);
        ([102; 111], [10; 97; 32; 98; 10; 10; 32; 99]);
        ([122], [118]) ].
